@@ -41,7 +41,10 @@ def gen(rng, idx, tier):
     cfg = rng.choice([{}, {}, {}, {"build_network_map": True}, {"build_network_map": True, "exclude_manufacturer_code": ["Garmin"]},
                       {"exclude_pgns": [129029, "vesselHeading"]}, {"preferred_units": {"ANGLE": "deg", "TEMPERATURE": "C"}}])
     return {"events": ev, "mix": {str(k): v for k, v in mix.items()}, "config": cfg,
-            "clock": rng.choice([0.0, 0.0, 100.0, 599.0, 601.0, 5000.0])}
+            "clock": rng.choice([0.0, 0.0, 100.0, 599.0, 601.0, 5000.0]),
+            # time of day the Yacht Devices gateway stamps on its first line (10 ms per frame afterwards): sometimes the
+            # history runs across midnight
+            "yd_start": rng.choice([6114.43, 43200.0, 86399.9, 86399.95, 86398.0])}
 
 
 def execute(plan):
@@ -87,8 +90,10 @@ def execute(plan):
                 if src == e["f"][1]:
                     tainted.add(mm)
         res = {}
+        tod = (plan.get("yd_start", 6114.43) + 0.01 * evno) % 86400.0
+        ydts = "%02d:%02d:%02d.%03d" % (int(tod) // 3600, int(tod) // 60 % 60, int(tod) % 60, int(round((tod - int(tod)) * 1000)) % 1000)
         for f in ff:
-            m, exc = bus.feed_frame(fl[f], f, e["f"])
+            m, exc = bus.feed_frame(fl[f], f, e["f"], ydts if f.startswith("yd") else None)
             res[f] = ("exc", type(exc).__name__) if exc is not None else msgs.key(m, iso=True)
         base = res["ebyte"]
         for f in ff[1:]:
@@ -105,7 +110,7 @@ def execute(plan):
         last = e.get("i", 0) == e.get("n", 1) - 1
         mf = mix.get(str(e.get("m")))
         if mf in ff:
-            m, exc = bus.feed_frame(mixed, mf, e["f"])
+            m, exc = bus.feed_frame(mixed, mf, e["f"], ydts if mf.startswith("yd") else None)
             r = ("exc", type(exc).__name__) if exc is not None else msgs.key(m, iso=True)
             st["mixed_frame_level"] = st.get("mixed_frame_level", 0) + 1
             if r != base:
